@@ -182,7 +182,7 @@ def gen(j, rng, nops):
 
 def space(tier):
     sp = Space(ID)
-    sp.add("long_histories", 60 if tier == "quick" else 2000, lambda j, rng: gen(j, rng, 260))
+    sp.add("long_histories", 60 if tier == "quick" else 6000, lambda j, rng: gen(j, rng, 260))
     sp.add("short_histories", 2400 if tier == "quick" else 40_000, lambda j, rng: gen(j, rng, 30))
 
     def every_value(j, rng):
